@@ -23,12 +23,26 @@ CORPUS = os.path.join(vplib.VERIF, "corpus", "C12")
 # ops that are several library calls in the harness: never the op under test
 COMPOSITE = {"pdig", "ddig", "cgets", "dfminmax", "dgetprec", "pcopysub"} | mem_gen.ALIAS_COMPOSITE
 
+# ops that set a value in a property tree through an expression (vnaproperty_vset / _vset_subtree) or import one
+PROP_EXPR_SETTERS = {"pset", "psetsub", "cpset", "cpsetsub"}
+PROP_SETTERS = PROP_EXPR_SETTERS | {"pimport", "pimports", "pimportf"}
+
 SOL1 = ["nsr 0 1 1 0 0 2 1 -1 0", "nsr 0 1 1 0 0 1 1 1 0", "nsr 0 1 1 0 0 0 1 0 0"]
 SOLT2 = ["nsr 0 2 2 0 0 %d %d %s 0" % (s, p, g) for p in (1, 2) for s, g in ((2, "-1"), (1, "1"), (0, "0"))] + ["nthru 0 2 2 0 0 1 2"]
 
 DIRECTED = {
     "prop_basic": ["pset 0 a.b=hello", "pset 0 l[+]=x", "pset 0 l[0+]=y", "pset 0 m.k1=v", "pget 0 a.b", "pkeys 0 m", "pcount 0 l", "ptype 0 a",
                    "pgetsub 0 m", "psetsub 0 n.e -", "pdel 0 m.k1", "pdel 0 l[0]", "pquote 0 with%20space", "pcopy 1 0", "pdig 0", "pdig 1"],
+    # every way a set can land on a cell that already holds something: scalar over scalar, scalar over a map / a list, over a list
+    # element, null over a scalar, in a map and in a list, at the root; then the tree is read back and deleted
+    "prop_overwrite": ["pset 0 k=v1", "pset 0 k=v2", "pset 0 m.a=1", "pset 0 m.b.c=2", "pset 0 m.b=flat", "pset 0 m=scalar", "pset 0 l[0]=x", "pset 0 l[1].k=y",
+                       "pset 0 l[1]=z", "pset 0 l[0]#", "pset 0 l[0]=again", "pset 0 l=s", "pset 0 k#", "pset 0 k=v3", "pdig 0", "pset 1 .=root", "pset 1 .=root2", "pset 1 a.b=1",
+                       "pdig 1", "pdel 0 .", "pdel 1 ."],
+    # DM80: the YAML importers replace the content of a tree that is not empty (a null document, a scalar, a map, a list over a map);
+    # the vnaproperty_delete(rootptr, ".") inside them allocates too
+    "prop_import_over_content": ["pset 1 a.b=hello", "pset 1 l[+]=x", "pimports 1 %7E%0A 0", "pdig 1", "pset 1 k=v", "pimports 1 a:%201%0A 1", "pdig 1",
+                                 "pimports 1 [1,%202]%0A 1", "pdig 1", "pimports 1 other:%20{x:%20y}%0A 0", "pdig 1", "pexport 1 0 1", "pset 2 old=content",
+                                 "pimport 2 0 1", "pdig 2", "pset 3 old.er=content", "pimportf 3 0 1", "pdig 3", "pdel 1 ."],
     "prop_list_growth": ["pset 0 l[+]=%d" % i for i in range(9)] + ["pset 0 l[20]=z", "pset 0 l[3+]=ins", "pdel 0 l[2]", "pdig 0"],
     "prop_map_growth": ["pset 0 k%d=%d" % (i, i) for i in range(7)] + ["pdel 0 k3", "pset 0 k3.x=1", "pkeys 0 .", "pdig 0"],
     "prop_yaml": ["pset 0 a.b=1", "pset 0 l[+]=x", "pset 0 l[+]=~", "pexport 0 0 1", "pimport 1 0 1", "pimportf 2 0 1", "pimports 3 a:%20[1,%20{b:%20c}]%0A 1", "pdig 1", "pdig 2", "pdig 3"],
@@ -168,11 +182,18 @@ class FaultEnum(object):
             else:
                 self.outcomes["enomem"] += 1
                 self.per_op[opname][1] += 1
+        # property-setting ops: what the failed call left behind (harness lines S0 / S1) and the form of its expression;
+        # the known finding DM55 is matched on these, not on the op name alone
+        shape = {}
+        if opname in PROP_SETTERS:
+            shape = {"tree_after_failure": mem_gen.classify_prop_failure(ops[i], r.states.get("S0"), r.states.get("S1"))}
+            if opname in PROP_EXPR_SETTERS:
+                shape["expr_form"] = mem_gen.prop_expr_form(ops[i])
         if rep:
             rl = rep[0]
             # (live counts may legitimately differ here: capacities that grew before the failure stay)
             if cmp_key(rl) != cmp_key(b):
-                self.record({"kind": "c12-repeat", "op": opname},
+                self.record(dict({"kind": "c12-repeat", "op": opname}, **shape),
                             "repeating the call without the fault gives %s/%s/%s, fault-free run gave %s/%s/%s: %s" % (
                                 rl["ret"], rl["errno"], rl["val"], b["ret"], b["errno"], b["val"], where), ops, i, k, r.err)
                 return
@@ -182,7 +203,7 @@ class FaultEnum(object):
                 continue
             bl = base.get(l["idx"])
             if bl is None or cmp_key(l) != cmp_key(bl):
-                self.record({"kind": "c12-state", "op": opname, "later_op": l["op"]},
+                self.record(dict({"kind": "c12-state", "op": opname, "later_op": l["op"]}, **shape),
                             "after the failed call the later op %d `%s` gives %s/%s/%s instead of %s: %s" % (
                                 l["idx"], ops[l["idx"]][:50], l["ret"], l["errno"], l["val"], (bl["ret"], bl["errno"], bl["val"]) if bl else None, where),
                             ops, i, k, r.err)
@@ -221,9 +242,12 @@ class FaultEnum(object):
         return len(jobs)
 
     def flush(self):
+        inst = []
         for key in sorted(self.seen):
             sig, what, replay = self.seen[key]
             self.ctx.violation(sig, what, replay)
+            inst.append({"sig": sig, "op": replay["script"][replay["op_index"]][:80], "k": replay["k"]})
+        self.ctx.extra["deviation_instances"] = inst[:60]
 
 
 def run(ctx):
@@ -231,7 +255,7 @@ def run(ctx):
     ctx.trusted_base = [
         "Coq 8.16.1 kernel (coqc); vm_compute for the refutation witnesses and examples; no native_compute",
         "axioms: none (Print Assumptions: Closed under the global context for every theorem of Properties_C12.v)",
-        "hand-written fault-monad models coq/Mem/{PropList,DataAlloc,ParamSlots,HashTab}.v tied to the C code by running the same op scripts "
+        "hand-written fault-monad models coq/Mem/{PropList,DataAlloc,DataZ0,ParamSlots,HashTab}.v tied to the C code by running the same op scripts "
         "with fail_at = k on the extracted models and with the k-th tracked request failing on the white-box C ops",
         "allocation sequences of everything that is not modelled (solver, loaders, savers, most of the API) are enumerated on the C side only (support): "
         "harness/allocwrap.c (only requests from libvna objects are counted / failed), gcc ASan/UBSan/LSan",
